@@ -580,4 +580,21 @@ theorem mem_live_run (r : Nat) : ∀ (es : List Event) (st : St),
     | dbCfg db => simp only [aliveAfter]; simp [hstep]
     | dropDb db => simp only [aliveAfter]; simp [hstep]
 
+/-! ### assignments produced by the assignment loop are well-formed events -/
+
+theorem nodup_keys_foldl_addReplicaTo (cur : Nat) : ∀ (l : List Nat) (a : Assignment),
+    (Map.keys a).Nodup → (Map.keys (l.foldl (fun acc r => addReplicaTo acc cur r) a)).Nodup
+  | [], _, h => h
+  | r :: t, a, h => by
+    rw [List.foldl_cons]
+    exact nodup_keys_foldl_addReplicaTo cur t _ (nodup_keys_upsert _ _ _ h)
+
+theorem nodup_keys_assignLoop (nodes : List Nat) (rf start : Nat) :
+    ∀ (k shift cur : Nat) (a : Assignment), (Map.keys a).Nodup →
+      (Map.keys (assignLoop nodes rf start k shift cur a)).Nodup
+  | 0, _, _, _, h => h
+  | k + 1, shift, cur, a, h => by
+    rw [assignLoop]
+    exact nodup_keys_assignLoop nodes rf start k _ _ _ (nodup_keys_foldl_addReplicaTo cur _ a h)
+
 end LinVerif.Lemmas.C18
